@@ -1,5 +1,6 @@
 """C29 -- number comparisons (Lt, Le, Gt, Ge, Eq, Ne of logic.cpp on two numbers) agree with
-the numeric order.  Model: coq/Num/NumModel.v (rel_lt ... rel_ne).  Theorems: coq/C29/P_*.v.
+the numeric order.  Model: coq/Num/NumModel.v (rel_lt ... rel_ne).  Theorems: coq/C29/P_*.v
+(all real numbers of all kinds and values; doubles via Flocq).
 Tie: all ordered pairs of the real-number palette x 6 relations; the driver compares every
 answer with the exact rational order computed with GMP (doubles converted exactly) and checks
 the dualities Le(a,b) = !Lt(b,a), Ge/Le, Gt/Lt, Eq symmetric, Ne = !Eq."""
@@ -71,7 +72,6 @@ def explore(ctx, drv, model, cases):
 
 def run(ctx):
     ctx.gate(["Base", "Num", "C29"])
-    nc.check_palette(ctx)
     ctx.prove(PROOF_MODULES, OBLIGATIONS)
     drv, model = nc.build(ctx)
     pal = list(nc.REAL_PALETTE)
@@ -82,6 +82,14 @@ def run(ctx):
             for o in RELS:
                 cases.append("%s %s %s" % (o, x, y))
                 cases.append("%s %s %s" % (o, y, x))
+    # __eq__ on every pair of the full palette, compare() within a class (and Rational vs Integer)
+    for a in nc.PALETTE:
+        for b in nc.PALETTE:
+            cases.append("eqb %s %s" % (a, b))
+            ka, kb = a.split(":")[0], b.split(":")[0]
+            if (ka == kb and ka != "NAN") or (ka == "R" and kb == "I"):
+                if "7ff8000000000000" not in a + b:      # compare() on NaN doubles is not an order (C02)
+                    cases.append("cmp %s %s" % (a, b))
     xs = boundary_values(ctx.rng, 60 if ctx.tier == "quick" else 400)
     for _ in range(1500 if ctx.tier == "quick" else 30000):
         a, b = ctx.rng.choice(xs), ctx.rng.choice(xs + pal)
